@@ -111,6 +111,9 @@ func (fn *wfn) expr(e ast.Expr, want types.Type) ([]wpre, string) {
 			}
 			return nil, fn.names[v]
 		}
+		if term, ok := fn.pkgVar(obj); ok { // world_values.go
+			return nil, term
+		}
 		t.fail(e, "identifier %s (only local variables; package-level variables are not supported in world mode)", x.Name)
 	case *ast.UnaryExpr:
 		if x.Op == token.AND {
@@ -145,11 +148,12 @@ func (fn *wfn) expr(e ast.Expr, want types.Type) ([]wpre, string) {
 		p1, base := fn.expr(x.X, nil)
 		p2, idx := fn.expr(x.Index, nil)
 		tmp := fn.temp()
-		return append(append(p1, p2...), wpre{pat: tmp, term: fmt.Sprintf("go_index %s %s", base, idx)}), tmp
+		return append(append(p1, p2...), wpre{pat: tmp, term: fmt.Sprintf("go_index %s %s", base, idx)}), "(byte_Z " + tmp + ")" // world_values.go: uint8 is an integer
 	case *ast.SliceExpr:
 		if x.Slice3 || t.kindOf(info.Types[x.X].Type) != wkBytes {
 			t.fail(e, "slice expression (three-index, or on a value of type %s)", info.Types[x.X].Type)
 		}
+		fn.checkArraySlice(x) // world_values.go
 		pres, base := fn.expr(x.X, nil)
 		lo, hi := "0%Z", "(len "+base+")"
 		if x.Low != nil {
@@ -180,7 +184,7 @@ func (fn *wfn) expr(e ast.Expr, want types.Type) ([]wpre, string) {
 	case *ast.StarExpr:
 		return fn.starExpr(x) // world_data.go
 	case *ast.FuncLit:
-		t.fail(e, "function literal (supported: deferred, or returned)")
+		return fn.localClosure(x) // world_values.go
 	}
 	t.fail(e, "expression of kind %T", e)
 	return nil, ""
@@ -285,6 +289,9 @@ func (fn *wfn) hasEffect(e ast.Node) bool {
 	found := false
 	ast.Inspect(e, func(n ast.Node) bool {
 		if c, ok := n.(*ast.CallExpr); ok {
+			if r := fn.t.resolve(fn.p, c); r.kind == wcLib && r.lib.Kind == WWorldRO && len(r.lib.Out) == 0 { // world_values.go: a query
+				return true
+			}
 			if fn.callTargets(c, func(*types.Var) { found = true }) {
 				return false
 			}
@@ -415,7 +422,11 @@ func (fn *wfn) addrOf(x *ast.UnaryExpr) ([]wpre, string) {
 		t.fail(x, "address of something other than a struct literal")
 	}
 	T := fn.info().Types[cl].Type
-	if t.structOf(T) != nil {
+	isErr := false // world_values.go: an error struct of the table, also of a translated package
+	if nm, ok := types.Unalias(T).(*types.Named); ok && nm.Obj().Pkg() != nil {
+		_, isErr = t.cfg.ErrStructs[nm.Obj().Pkg().Path()+"."+nm.Obj().Name()]
+	}
+	if !isErr && t.structOf(T) != nil {
 		p, v := fn.composite(cl)
 		return p, "(Some " + v + ")"
 	}
@@ -498,6 +509,9 @@ func (fn *wfn) composite(x *ast.CompositeLit) ([]wpre, string) {
 	T := fn.info().Types[x].Type
 	named := t.structOf(T)
 	if named == nil {
+		if z, ok := t.arrayZero(T); ok && len(x.Elts) == 0 { // world_values.go
+			return nil, z
+		}
 		if t.kindOf(T) == wkBytes {
 			var pres []wpre
 			var elems []string
@@ -683,6 +697,13 @@ func (fn *wfn) callValues(c *ast.CallExpr) ([]wpre, []string) {
 			return nil, []string{"(Some " + t.zero(c, T) + ")"}
 		case "append":
 			return fn.appendCall(c) // world_data.go
+		case "make": // world_values.go
+			if len(c.Args) != 2 || t.kindOf(info.Types[c.Args[0]].Type) != wkBytes {
+				t.fail(c, "make other than make([]byte, n)")
+			}
+			p, v := fn.expr(c.Args[1], types.Typ[types.Int])
+			tmp := fn.temp()
+			return append(p, wpre{pat: tmp, term: "go_make_bytes " + v}), []string{tmp}
 		}
 		t.fail(c, "built-in function %s", r.builtin)
 	case wcFuncVar:
@@ -765,7 +786,9 @@ func (fn *wfn) translatedCall(c *ast.CallExpr, r wcall) ([]wpre, []string) {
 			if !ok {
 				t.fail(c, "call of the pointer method %s on something other than a local variable", g.key)
 			}
-			fn.checkOrder(c, r.recv, v)
+			if t.recvMutated(g) { // world_values.go: a method that leaves its receiver as it was
+				fn.checkOrder(c, r.recv, v)
+			}
 			switch {
 			case v == fn.recv:
 				parts = append(parts, fn.names[v])
@@ -809,6 +832,9 @@ func (fn *wfn) recvValue(c *ast.CallExpr, r wcall) ([]wpre, string) {
 func (fn *wfn) libCall(c *ast.CallExpr, r wcall) ([]wpre, []string) {
 	t := fn.t
 	lf := r.lib
+	if len(lf.Out) > 0 { // world_values.go
+		return fn.outCall(c, r)
+	}
 	if r.sig.Variadic() && lf.Kind != WUpdate && lf.Kind != WDrop {
 		return fn.variadicLibCall(c, r) // world_data.go
 	}
